@@ -151,9 +151,13 @@ pub async fn run_config(cfg_name: &str, rep: &mut Report, ops: &mut Vec<String>,
         "allow-excluded" => Some(AccessControlConfig { allow: Some(HashSet::from([a2.id])), deny: None }),
         "deny" => Some(AccessControlConfig { allow: None, deny: Some(HashSet::from([a1.id])) }),
         "deny-other" => Some(AccessControlConfig { allow: None, deny: Some(HashSet::from([AccountId::random()])) }),
+        // both lists: the subject is on both (denied entries take precedence), or only on the allow list
+        "both-denied" => Some(AccessControlConfig { allow: Some(HashSet::from([a1.id, a2.id])), deny: Some(HashSet::from([a1.id])) }),
+        "both-allowed" => Some(AccessControlConfig { allow: Some(HashSet::from([a1.id, a2.id])), deny: Some(HashSet::from([AccountId::random()])) }),
+        "both-neither" => Some(AccessControlConfig { allow: Some(HashSet::from([a2.id])), deny: Some(HashSet::from([AccountId::random()])) }),
         _ => None,
     };
-    let excluded = matches!(cfg_name, "allow-excluded" | "deny");
+    let excluded = matches!(cfg_name, "allow-excluded" | "deny" | "both-denied" | "both-neither");
     let live = start_server(access).await?;
     // register the accounts (an excluded account cannot be created through the API: create it in storage directly)
     for a in [&a1, &a2] {
@@ -266,7 +270,7 @@ pub async fn run_config(cfg_name: &str, rep: &mut Report, ops: &mut Vec<String>,
                 let trusted = if revoked { "1" } else { "1,2" };
                 let cred_s = match cred { CredKind::None => "none".to_string(), CredKind::Malformed | CredKind::Dotted => "malformed".to_string(),
                     _ => format!("token:{}:{}", key_id, if cred == CredKind::OtherBytes { 8 } else { 7 }) };
-                let cfg_s = match cfg_name { "none" => "none".to_string(), "allow" => "allow:1,5".into(), "allow-excluded" => "allow:5".into(), "deny" => "deny:1".into(), _ => "deny:6".into() };
+                let cfg_s = match cfg_name { "none" => "none".to_string(), "allow" => "allow:1,5".into(), "allow-excluded" => "allow:5".into(), "deny" => "deny:1".into(), "both-denied" => "both:1,5:1".into(), "both-allowed" => "both:1,5:6".into(), "both-neither" => "both:5:6".into(), _ => "deny:6".into() };
                 let op = format!("auth req handler={} hdr={} cred={} signed=7 cfg={} trusted={}", handler, if hdr_acct.is_some() { "1" } else { "-" }, cred_s, cfg_s, trusted);
                 let decision = if code == 403 { "forbidden" } else if code == 400 || code == 0 { "bad-request" } else { "allow" };
                 // the properties' own statement, checked on the implementation
@@ -371,7 +375,7 @@ pub fn run(cli: &Cli) {
     let rt = tokio::runtime::Builder::new_multi_thread().worker_threads(4).enable_all().build().unwrap();
     let mut rng = Rng::new(cli.seed);
     let mut ops = vec![]; let mut imp = vec![];
-    for cfg in ["none", "allow", "allow-excluded", "deny", "deny-other"] {
+    for cfg in ["none", "allow", "allow-excluded", "deny", "deny-other", "both-denied", "both-allowed", "both-neither"] {
         if let Err(e) = rt.block_on(run_config(cfg, &mut rep, &mut ops, &mut imp, &mut rng)) {
             rep.notes.push(format!("config {cfg} aborted: {e}"));
             rep.spec_fail("c11-harness-aborted", json!({"config": cfg}), &e.to_string());
@@ -380,7 +384,7 @@ pub fn run(cli: &Cli) {
     rep.diff_streams("corr:auth", &ops, &imp);
     rep.exhaustive = true;
     rep.rule = "finite product, enumerated completely: 16 authenticated routes (incl. the websocket handshake of /sync/changes) x 9 credential forms (none, malformed, legacy dotted, unknown key, revoked key, valid key over other bytes, valid key of another account, no account header, valid) \\
-        x 5 access configurations (none, allow incl., allow excl., deny incl., deny other) x before/after device revocation, against a live in-process server on loopback; \\
+        x 8 access configurations (none, allow incl., allow excl., deny incl., deny other, allow + deny with the account on both, only on the allow list, on neither) x before/after device revocation, against a live in-process server on loopback; \\
         HTTP status class and server state before/after each request; distinct = distinct (config, phase, route, credential)".into();
     rep.write(&cli.out);
 }
